@@ -220,7 +220,58 @@ def search_worklist():
     return wit, cases
 
 
-SEARCHES = {'analyze_stmts': search_analyze_stmts, 'complete_in_states_and_check_continue_flag': search_continue_flag,
+def run_taint_worklist(shape):
+    """real PathFinder.propagate_taint on a small state flow graph; the number of statement visits must stay within 4(|V|+|E|)+16"""
+    import networkx as nx2
+    from lian.taint.taint_analysis import PathFinder
+    from lian.taint.taint_structs import TaintEnv
+    from lian.common_structs import SFGNode, SFGEdge
+    from lian.config.constants import SFG_NODE_KIND as NK, SFG_EDGE_KIND as EK
+    g = nx2.DiGraph()
+    p = SFGNode(node_type=NK.SYMBOL, def_stmt_id=1, node_id=1, name='p', index=1)
+    prev = p
+    n_calls = shape
+    for i in range(n_calls):
+        stmt = SFGNode(node_type=NK.STMT, def_stmt_id=10 + i, node_id=10 + i, name='object_call_stmt')
+        tgt = SFGNode(node_type=NK.SYMBOL, def_stmt_id=10 + i, node_id=100 + i, name=f'v{i}', index=10 + i)
+        g.add_edge(prev, stmt, weight=SFGEdge(edge_type=EK.SYMBOL_IS_USED, stmt_id=10 + i, pos=0))
+        g.add_edge(stmt, tgt, weight=SFGEdge(edge_type=EK.SYMBOL_IS_DEFINED, stmt_id=10 + i))
+        prev = tgt
+    visits = [0]
+    bound = 4 * (g.number_of_nodes() + g.number_of_edges()) + 16
+
+    def props(u):
+        visits[0] += 1
+        if visits[0] > 25 * bound:
+            raise Budget()
+        return True
+    pf = object.__new__(PathFinder)
+    pf.ta = types.SimpleNamespace(sfg=g, taint_manager=TaintEnv(), rule_applier=types.SimpleNamespace(apply_propagation_rules=props))
+    try:
+        pf.propagate_taint(p)
+    except Budget:
+        return 'taint-worklist', f'{n_calls} chained method calls on a tainted receiver: more than {25 * bound} statement visits (bound {bound}): the worklist does not drain'
+    if visits[0] > bound:
+        return 'taint-worklist', f'{visits[0]} statement visits, bound {bound}'
+    return None
+
+
+def search_taint_worklist():
+    wit, cases = [], 0
+    for n in (1, 2, 4):
+        cases += 1
+        try:
+            r = run_taint_worklist(n)
+        except Exception as e:
+            r = ('safety', f'exception {e!r}')
+        if r:
+            wit.append(dict(function='PathFinder._propagate_from_stmt', input=dict(chained_calls=n), observed=r[1], clauses=[r[0], 'taint-worklist', 'frame', 'iterated']))
+            break
+    return wit, cases
+
+
+SEARCHES = {'_propagate_from_stmt': search_taint_worklist, 'propagate_taint': search_taint_worklist, '_propagate_from_symbol': search_taint_worklist, '_propagate_from_state': search_taint_worklist,
+            '_enqueue': search_taint_worklist, 'analyze_stmts': search_analyze_stmts, 'complete_in_states_and_check_continue_flag': search_continue_flag,
             'compute_target_method_states': search_compute_target, 'SimpleWorkList': search_worklist}
 
 
